@@ -167,6 +167,7 @@ func TestC19(t *testing.T) {
 			func() { _ = mq.UserProp{}.String() },
 			func() { _ = (&mq.Malformed{}).Error() },
 			func() { var u mq.UserProperties; u.AddUserProp() },
+			func() { mq.Dump(io.Discard, nil) }, // the zero value of the interface type, what a failed ReadPacket leaves
 		} {
 			if pan := guard.Call(f); pan != nil {
 				report(caseC19{Origin: "zero:other"}, "other-panic:"+panicSite(pan), fmt.Sprintf("zero value of an exported type panicked: %v\n%s", pan.Value, pan.Stack))
